@@ -83,16 +83,20 @@ func (c *Ctx) cellInfoOf(cell ssa.Value) *cellInfo {
 }
 
 // loopOf returns the set of blocks forming the innermost natural loop containing b (nil if none).
+// Back edges with the same header are merged into one loop.
 func loopOf(b *ssa.BasicBlock) map[*ssa.BasicBlock]bool {
 	fn := b.Parent()
-	var best map[*ssa.BasicBlock]bool
+	loops := map[*ssa.BasicBlock]map[*ssa.BasicBlock]bool{}
 	for _, tail := range fn.Blocks {
 		for _, head := range tail.Succs {
 			if !head.Dominates(tail) {
 				continue
 			}
-			// natural loop of back edge tail->head
-			body := map[*ssa.BasicBlock]bool{head: true}
+			body := loops[head]
+			if body == nil {
+				body = map[*ssa.BasicBlock]bool{head: true}
+				loops[head] = body
+			}
 			var stack []*ssa.BasicBlock
 			if !body[tail] {
 				body[tail] = true
@@ -108,9 +112,12 @@ func loopOf(b *ssa.BasicBlock) map[*ssa.BasicBlock]bool {
 					}
 				}
 			}
-			if body[b] && (best == nil || len(body) < len(best)) {
-				best = body
-			}
+		}
+	}
+	var best map[*ssa.BasicBlock]bool
+	for _, body := range loops {
+		if body[b] && (best == nil || len(body) < len(best)) {
+			best = body
 		}
 	}
 	return best
